@@ -13,7 +13,7 @@ func init() {
 		Explanation: "Decides the client's endpoint-selection guards and the termination mechanics of its calls: (R1) every endpoint NextReadEndpoint returns is under a !IsDead() test on that same endpoint, list elements are returned only when they are secondaries or under the Any preference, the primary never under Secondary/Any; Primary() reports a dead primary; " +
 			"(R2) every round-robin scan has a counter that grows on each iteration and is compared with the number of endpoints in its exit test; (R3) Add and AddBulk go through callPrimary only, whose request goes to topology.Primary(); (R4) every loop of callPrimary, callAny, discover and the retrier has a progress statement on each way around it: a one-shot flag set and tested, the selected endpoint marked dead, or a bounded counter; " +
 			"(R5) discovery and the redirect hook update the topology with the leader's shard as primary; (R6) topology and endpoint state is accessed only under their locks, url/nodeType are immutable after construction.",
-		Added:       "Also (R5) discovery selects its node with preference Any and a primary confirmed by a server answer is installed as a fresh endpoint on every path. Third round: (R5) Update builds a fresh endpoint list; (R6) MarkAsDead marks on every path; (R4) the retrier's attempts are bounded.",
+		Added:       "Also (R5) discovery selects its node with preference Any and a primary confirmed by a server answer is installed as a fresh endpoint on every path. Third round: (R5) Update builds a fresh endpoint list; (R6) MarkAsDead marks on every path; (R4) the retrier's attempts are bounded. Fifth round: callPrimary's rediscovery does not depend on the state of the other endpoints.",
 		Assumptions: []string{"http.Client honours its timeout"},
 		Declined:    "convergence after a leader change and fairness of the rotation as statements over histories.",
 	}, runC20)
@@ -77,8 +77,11 @@ func loopProgress(p *Program, fn *ssa.Function, e backEdge, shrink func(ssa.Inst
 			continue
 		}
 		if k, isC := ph.Edges[predIdx].(*ssa.Const); isC && k.Value != nil && k.Value.String() == "true" {
-			cs := p.CondsAt(e.src)
-			if hasCond(cs, func(c Cond) bool { return !c.Pol && c.V == ssa.Value(ph) || !c.Pol && c.Atom.V == ssa.Value(ph) }) {
+			// (the test may sit in a boolean helper that is handed the flag: implied conditions carry the flag's term)
+			cs := p.withImplied(p.CondsAt(e.src))
+			if hasCond(cs, func(c Cond) bool {
+				return !c.Pol && (c.V == ssa.Value(ph) || c.Atom.V == ssa.Value(ph))
+			}) {
 				return "one-shot flag " + ph.Comment
 			}
 		}
